@@ -19,6 +19,7 @@ EXPLANATION = (
     "clause, annotated-disjunction and fact branches alike; the fact branch uses the table [1 - p, p] with value 1; BN4 OrCPT.to_factor gives a head "
     "[0.0, 1.0] exactly when some (parent, value) pair of the row is one of its registered pairs and [1.0, 0.0] otherwise, over all combinations of "
     "parent values; BN5 formula_to_bn converts every clause of formula.enum_clauses() once, with its enumeration index as the choice node's number."
+    " Added after seed round 6: BN6 the parent list of the choice-node Factor is an order-preserving image of the sequence the key tuples are zipped with."
 )
 TECHNIQUE = "static analysis: decision tables (truth table of the body evaluator, CPT rows), index-pairing patterns, sibling agreement of the three clause branches"
 LEVEL_TEXT = EXPLANATION
